@@ -10,6 +10,7 @@
 -/
 import PicoSVG.Proofs.Noise
 import PicoSVG.Proofs.CompP
+import PicoSVG.Proofs.HoistP
 
 set_option linter.unusedSectionVars false
 namespace PicoSVG.C14
@@ -93,5 +94,18 @@ theorem allPass_noise_kinds :
     (CompP.allPass true).noise .pi = true ∧
     (CompP.allPass true).noise (.elem 7 (svgTag "symbol") [("viewBox", "0 0 1 1")] []) = true ∧
     (CompP.allPass true).noise (.elem 7 (svgTag "metadata") [] []) = true := CompP.allPass_noise_kinds
+
+/-- C14 (anonymous symbols, since de121e8): what `remove_anonymous_symbols` leaves in the place of an element is what the
+    per-element pass leaves — nothing for an id-less symbol, the element itself otherwise — except for an id-less symbol with
+    gradients below it, whose gradients stay (they can be referenced from elsewhere; C08). The theorems above about
+    `removeAnonSymbols` therefore describe the code on every document in which no anonymous symbol holds a gradient; the
+    hoisting itself is tied by the per-run correspondence. -/
+theorem anon_symbol_hoist_is_pass_elsewhere (n : Node)
+    (h : Cleanup.isAnonSymbol n = true → Cleanup.gradsOfList n.children = []) :
+    Cleanup.anonSymbolHoist n = Cleanup.anonSymbolPass.f n := Cleanup.hoist_eq_pass n h
+
+example : Cleanup.anonSymbolHoist (.elem 1 (svgTag "symbol") [] [.elem 2 (svgTag "linearGradient") [("id", "g")] [], .elem 3 (svgTag "rect") [] []])
+    = [.elem 2 (svgTag "linearGradient") [("id", "g")] []] := by
+  simp [Cleanup.anonSymbolHoist, Cleanup.gradsOfList, Cleanup.gradsOf, Cleanup.isGradientTag, svgTag, Attrs.has]
 
 end PicoSVG.C14
